@@ -36,7 +36,7 @@ import numpy as np
 from hypothesis import strategies as st
 
 from pvf import npref, progen
-from pvf.npref import NpReject, Unsound, Val
+from pvf.npref import Val
 from pvf.ptbuild import (
     INPUT_OPS,
     apply_pt,
@@ -782,7 +782,26 @@ class _Builder:
                 break
             # holders first (they may make receives live)
             i = dead[0]
-            spec["outputs"].append([f"out{len(spec['outputs'])}", i])
+            tgt = i
+            if g.nodes[i]["op"] == "recv":
+                # prefer an array computed from the receive over the bare one
+                users = [j for j in range(i + 1, len(g.nodes))
+                         if i in node_refs(g.nodes[j])]
+                if users:
+                    tgt = users[-1]
+                    more = True
+                    while more:
+                        more = False
+                        for j in range(tgt + 1, len(g.nodes)):
+                            if tgt in node_refs(g.nodes[j]):
+                                tgt = j
+                                more = True
+                                break
+                elif g.vals[i].kind != "b" and not self.boolean(1, 3):
+                    r = g.try_op("add", [["n", i], g.partner(i)])
+                    if r is not None:
+                        tgt = r
+            spec["outputs"].append([f"out{len(spec['outputs'])}", tgt])
         # materialisation tags anywhere
         pst = int(self.cfg.p_impl_stored * 100) if self.stored else 0
         for i in sorted(set(reachable_nodes(spec))):
